@@ -642,6 +642,10 @@ func runCheck(c *checkCfg) int {
 	writeEvidence(c, b, a, nviol, time.Since(start).Seconds(), buildS)
 	fmt.Printf("%s %s: %d runs, %d steps, %.0f simulated s, %d distinct non-trivial histories, %d abstract states, stuck=%d budget-hit=%d, wall %.1fs (build %.1fs), violations=%d\n",
 		c.prop, c.tier, a.runs, a.steps, float64(a.simMs)/1000, len(a.nonTrivial), len(a.states), a.stuck, a.budgetHit, time.Since(start).Seconds(), buildS, nviol)
+	if exit == 0 && c.prop == "C20" && a.raceRuns == 0 && c.maxRuns == 0 {
+		fmt.Fprintf(os.Stderr, "vsim: inconclusive (exit 2): the race-detector build executed no run\n")
+		return 2
+	}
 	if exit == 0 && a.runs >= 1000 && len(a.nonTrivial) == 0 {
 		// nothing was decided: not one run reached the situation the property is about (on the
 		// unchanged tree every profile reaches it in almost every run). That is neither "held"
